@@ -36,7 +36,7 @@ def run_impl(c, thr):
     cols = c["score"]
     fn = lambda j, s, k, e: cols[j](s, k, e)  # noqa
     X = pd.DataFrame(np.zeros((c["n"], len(cols))))
-    d = SeededBinarySegmentation(change_score=ts.FnChangeScore(fn, len(cols), int_dtype=(c["n"] + c["m"]) % 3 == 0), threshold_scale=1.0,
+    d = SeededBinarySegmentation(change_score=(ts.FnChangeScoreSub(None, fn, len(cols)) if (c["n"] + c["m"]) % 3 == 1 else ts.FnChangeScore(fn, len(cols), int_dtype=(c["n"] + c["m"]) % 3 == 0)), threshold_scale=1.0,
                                  min_segment_length=c["m"], max_interval_length=c["maxlen"], growth_factor=c["g"]).fit(fit_frame(c, len(cols)))
     d.threshold_ = float(thr)
     cpts = [int(v) for v in d.predict(X)["ilocs"]]
